@@ -93,6 +93,7 @@ fn main() {
     let mut hostile_err = 0u64;
     let mut samples: Vec<Value> = vec![];
     let mut probes = 0u64;
+    let mut nested_probes = 0u64;
     let mut shapes_distinct: BTreeSet<String> = BTreeSet::new();
     let current: BTreeSet<&str> = types.iter().map(|t| t.path).collect();
     for (i, t) in types.iter().enumerate() {
@@ -201,6 +202,32 @@ fn main() {
                                 bad = Some(format!("field number {tag} should carry the {kind} field '{name}' (name-derived value {want_v}); found {:?}", occ.iter().map(|o| (o.0, o.1)).collect::<Vec<_>>()));
                             }
                         }
+                        "message" => {
+                            // the nested message under this number must be the pinned nested TYPE: every field the
+                            // pinned definition of that type has must show up inside the payload (and nothing else)
+                            let inner = ftype.rsplit('<').next().unwrap_or("").split('>').next().unwrap_or("").trim();
+                            if !inner.starts_with("::") && !inner.is_empty() {
+                                let modp = t.path.rsplitn(2, "::").nth(1).unwrap_or("");
+                                let key = resolve(modp, inner);
+                                if pinned.get("messages").and_then(|m| m.get(&key)).is_some() {
+                                    if let Some(exp) = expected_shape(&pinned, &key, 0) {
+                                        let want: BTreeSet<(u32, u8)> = exp.iter().map(|x| (x.0, x.1)).collect();
+                                        let occ = field_payloads(&res.full_bytes, tag);
+                                        if occ.is_empty() {
+                                            bad = Some(format!("message field '{name}' (number {tag}) absent from the fully populated instance"));
+                                        }
+                                        for o in &occ {
+                                            let got: BTreeSet<(u32, u8)> = wire_fields(&o.2).unwrap_or_default().into_iter().collect();
+                                            if got != want {
+                                                bad = Some(format!("message field '{name}' (number {tag}) should hold a {key}, whose fully populated instance has (field number, wire type) {want:?}; the payload has {got:?}"));
+                                                break;
+                                            }
+                                        }
+                                        nested_probes += 1;
+                                    }
+                                }
+                            }
+                        }
                         "map" => {
                             let kv: Vec<&str> = f.get("map").and_then(|x| x.as_str()).unwrap_or(",").split(',').collect();
                             let occ = field_payloads(&res.full_bytes, tag);
@@ -303,6 +330,7 @@ fn main() {
     let doc = json!({
         "enumerations_checked": enums_checked,
         "field_probes": probes,
+        "nested_probes": nested_probes,
         "types_checked": checked, "evals": evals, "types_diffed": diffed, "diff_evals": diff_evals, "urls_checked": urls_checked,
         "hostile_decoded": hostile_ok, "hostile_rejected": hostile_err, "unpinned": unpinned, "missing": missing,
         "violations": violations, "samples": samples, "distinct_shapes": shapes_distinct.len(),
